@@ -4,24 +4,30 @@
 use crate::infra::{guarded, Ctx, PropDef, ShardOut};
 use crate::props::c05::{self, Decoder, Features, Toggle};
 use crate::reference::datalog::{self as rd, Fact, MaxMinSr, NonNumeric, Rule, Symbols};
+use datalog::reasoning::materialisation::sdd_seed_materialise::infer_new_facts_with_sdd_seed_specs;
 use datalog::reasoning::Reasoner;
 use serde_json::{json, Value};
 use shared::provenance::{BooleanProvenance, DnfWmcProvenance, MinMaxProbability, Provenance};
 use shared::sdd::SddProvenance;
+use shared::seed_spec::SeedSpec;
+use shared::triple::Triple;
 use std::collections::{BTreeMap, BTreeSet};
 
 pub const DEF: PropDef = PropDef {
     id: "C06",
     level: "exploration",
-    rule: "case = (program, ordered list of certain/tagged facts, mode). Programs: the 40 single rules of the C05 core, every ordered pair of a 14-rule probabilistic sub-core (thorough: of the whole core) that one stratum of negation can evaluate, and 8 three/four-rule programs of the late-improvement family (a second proof of an already consumed fact arrives one round later), mutual recursion and negation over derived facts. Inputs: 18 fact sets of <=4 facts (chains, cycles, shortcut+tail, diamond, shared evidence, an input that is also derivable, numerics) with EVERY assignment of {certain,0,0.3,0.5,1} to their facts (pairs in the quick tier: of {0,0.3,0.5,1}), and in every insertion order (<=3 facts) / 6 orders (4 facts) with a fixed all-uncertain assignment; plus larger graphs with 6..8 (thorough: ..12) uncertain facts with a fixed spread of distinct probabilities in 2 orders. Modes: DnfWmcProvenance, SddProvenance (oracle: R-worlds over all 2^n subsets, 1e-9), MinMaxProbability (oracle: (max,min) least fixpoint; not judged for programs with negation), BooleanProvenance (oracle: stratified model of the facts with p>0). Non-trivial = some fact not among the inputs has exact probability strictly between 0 and 1; distinct = distinct (program, fact list with probabilities).",
+    rule: "case = (program, ordered list of certain/tagged facts, mode). Programs: the 40 single rules of the C05 core plus 7 further single rules (constant join node, repeated premise variable, triangle / four-premise bodies with shared evidence, variable-predicate premises), every ordered pair of a 14-rule probabilistic sub-core (thorough: of the whole core) that one stratum of negation can evaluate, 8 three/four-rule programs of the late-improvement family (a second proof of an already consumed fact arrives one round later), mutual recursion and negation over derived facts, and 10 negation programs whose negated rule is the top of the program (several negated atoms whose formulas share seeds, a numeric or != filter next to a negated atom, a fully ground negated atom, three premises with negation, negation of a fact with several proofs): nothing reads the negated conclusion, so these are judged exactly. Inputs: 20 curated fact sets of <=4 facts (chains, cycles, self-loops next to a 2-cycle, shortcut+tail, diamond, shared evidence, an input that is also derivable, numerics) with EVERY assignment of {certain,0,0.3,0.5,1} to their facts (pairs in the quick tier: of {0,0.3,0.5,1}), and in EVERY insertion order with a fixed all-uncertain assignment (4 facts: 6 orders in all modes, the other 18 in the exact modes); for every program that is not a pair, EVERY non-empty set of <=3 facts over {a,b}x{p,q}x{a,b} (92 sets) with every assignment of {certain,0,0.3,0.5,1} (3 facts in the quick tier: every assignment of {certain,0.5} plus (0.3,0.5,0.3)); plus larger graphs with 6..8 (thorough: ..12) uncertain facts with a fixed spread of distinct probabilities in 2 orders in all modes and 4 more rotations in the exact modes. Alternative entry point of the decision-diagram mode (programs that are not pairs): infer_new_facts_with_sdd_seed_specs with one SeedSpec::Independent per uncertain fact of a curated set, in every list order (4 facts: 2), under EVERY assignment of the ids {0..k-1} and of a gapped id set ({0,2,5,9}) to the seeds, and the same with the first fact certain - so diagram variable order (list order), id order and id density all vary. Modes: DnfWmcProvenance, SddProvenance, seed-spec entry point (oracle: R-worlds over all 2^n subsets, 1e-9), MinMaxProbability (oracle: (max,min) least fixpoint; not judged for programs with negation), BooleanProvenance (oracle: stratified model of the facts with p>0; a run that instead agrees exactly with the model of all listed facts is accepted and counted). Inputs that are the same multiset of entries share one evaluation of the reference (one unit of the sharded walk). Non-trivial = some fact not among the inputs has exact probability strictly between 0 and 1; distinct = distinct (program, fact list with probabilities).",
     assumptions: &[
         "R-worlds = sum over all subsets of the uncertain facts of the world weight x [fact in the least (stratified) model of the world] (harness/src/reference/datalog.rs)",
         "reported probability of a fact = Provenance::recover_probability(TagStore::get_tag(fact)) for every fact in the store after inference; a fact with positive exact probability that is absent from the store is a failure, a fact in the store with reported probability 0 and exact probability 0 is not",
         "min-max with negation is not fixed by the statement (no reading of NOT in 'best derivation's weakest input'): not judged",
+        "Boolean mode: the statement's 'plain derivability' does not say whether an input with probability 0 counts as present; the oracle is derivability from the inputs with p>0 (what tag_from_probability does), and a run that agrees exactly with derivability from all listed inputs is accepted too (counted; 0 on the pinned tree)",
+        "SeedSpec::Independent seeds are independent probabilistic inputs in the sense of the statement (ExclusiveGroup seeds are not generated); ids are distinct, list order and id order are arbitrary",
         "cases where a numeric filter meets a non-numeric binding and the two readings differ in some world are not judged",
         "every fact is inserted once (no triple both certain and tagged, no duplicate tagged triple)",
         "the store hands facts out in HashMap order (random per process): a wrong probability that changes from run to run is still a failure (tag result_varies_between_runs), a replay executes the case 8 times",
         "failure tag explained_by=single_pass_over_negated_rules_after_positive_fixpoint: every reported value lies between the value R-worlds gives when each world is evaluated with one pass over the negated rules and the exact value",
+        "shannon_wmc's memo table has no observable counter; whether a memo hit occurs is not claimed",
     ],
     run,
     replay,
@@ -39,8 +45,12 @@ pub enum Mode {
     Sdd,
     MinMax,
     Bool,
+    /// decision-diagram mode through infer_new_facts_with_sdd_seed_specs (Independent seeds, caller-chosen ids)
+    SddSeeds,
 }
 pub const MODES: [Mode; 4] = [Mode::Dnf, Mode::Sdd, Mode::MinMax, Mode::Bool];
+const EXACT_MODES: [Mode; 2] = [Mode::Dnf, Mode::Sdd];
+const ALL_MODE_NAMES: [Mode; 5] = [Mode::Dnf, Mode::Sdd, Mode::MinMax, Mode::Bool, Mode::SddSeeds];
 impl Mode {
     pub fn name(&self) -> &'static str {
         match self {
@@ -48,6 +58,7 @@ impl Mode {
             Mode::Sdd => "sdd",
             Mode::MinMax => "minmax",
             Mode::Bool => "boolean",
+            Mode::SddSeeds => "sdd_seed_specs",
         }
     }
 }
@@ -90,7 +101,39 @@ const FAMILIES: [&[&str]; 8] = [
     &["q(?x,?z) :- p(?x,?y), p(?y,?z)", "p(?x,?y) :- q(?x,?y)", "s(?x,?x) :- p(?x,?y)"],
 ];
 
-const SMALL_SETS: [&[&str]; 18] = [
+/// programs whose negated rule is the top of the program (nothing reads its conclusion, so the single
+/// negative pass of the engine is a complete evaluation and every value is judged exactly): several
+/// negated atoms whose formulas share seeds, a filter next to a negated atom, a fully ground negated
+/// atom, three premises with negation, negation of a fact with several proofs
+const NEG_FAMILIES: [&[&str]; 10] = [
+    &["r(?x,?y) :- p(?x,?z), p(?z,?y)", "q(?x,?y) :- p(?x,?y), not p(?y,?x), not r(?x,?y)"],
+    &["t(?x,?y) :- p(?x,?y)", "t(?x,?z) :- t(?x,?y), p(?y,?z)", "s(?x,?y) :- p(?x,?y), not t(?y,?x), ?y != ?x"],
+    &["s(?x,?y) :- p(?x,?y), not p(b,?y), ?y > 5"],
+    &["s(?x,?y) :- p(?x,?y), not p(a,a)"],
+    &["s(?x,?y) :- p(?x,?y), not p(?y,?x), not q(?x,?y)"],
+    &["s(?x,?y) :- p(?x,?y), not p(?x,?x), not p(?y,?y)"],
+    &["s(?x,?z) :- p(?x,?y), p(?y,?z), p(?x,?z), not q(?x,?z)"],
+    &["r(?x,?y) :- p(?x,?y)", "r(?x,?y) :- q(?x,?y)", "s(?x,?y) :- p(?x,?y), not r(?y,?x)"],
+    &["r(?x,?z) :- p(?x,?y), p(?y,?z)", "s(?x,?y) :- p(?x,?y), not r(?x,?x), not r(?y,?y)"],
+    &["s(?x,?y) :- p(?x,?y), not q(?x,?y), ?x != ?y", "t(?x,?y) :- p(?x,?y), not p(?y,?x), not p(?x,?x)"],
+];
+
+/// further single rules (shapes of the C05 families B/C/G that the 40-rule core lacks): a constant
+/// join node, a repeated premise variable with a second premise, a triangle and a four-premise body
+/// whose proofs share evidence, a variable-predicate premise joined with constant-predicate ones
+const EXTRA_SINGLES: [&str; 7] = [
+    "q(?x,?y) :- p(?x,a), p(a,?y)",
+    "r(?x,?y) :- p(?x,?x), p(?x,?y)",
+    "s(?x,?x) :- p(?x,?y), p(?x,?z), p(?y,?z)",
+    "s(?x,?x) :- p(?x,?y), p(?y,?x)",
+    "s(?x,?x) :- p(?x,?y), p(?y,?z), p(?z,?w), p(?x,?w)",
+    "r(?x,?z) :- p(?x,?y), q(?y,?z), ?w(?x,?z)",
+    "s(?x,?x) :- ?w(?x,?y), ?w(?y,?x)",
+];
+
+const SMALL_SETS: [&[&str]; 20] = [
+    &["p(a,a)", "p(a,b)", "p(b,a)"],
+    &["p(a,a)", "p(b,b)", "p(a,b)"],
     &["p(a,b)"],
     &["p(a,b)", "p(b,c)"],
     &["p(a,b)", "p(b,a)"],
@@ -155,7 +198,79 @@ fn programs(sy: &Symbols, thorough: bool) -> (Vec<Prog>, u64) {
         rd::stratify(&rules).expect("family program must be stratifiable");
         v.push(Prog { rules, family: "family" });
     }
+    for f in NEG_FAMILIES {
+        let rules: Vec<Rule> = f.iter().map(|t| parse(t)).collect();
+        rd::stratify(&rules).expect("negation family program must be stratifiable");
+        assert!(!c05::features(&rules).neg_conclusion_consumed, "negation family: nothing may read the negated rule's conclusion");
+        v.push(Prog { rules, family: "negfamily" });
+    }
+    for t in EXTRA_SINGLES {
+        v.push(Prog { rules: vec![parse(t)], family: "single_extra" });
+    }
     (v, excluded)
+}
+
+/// every non-empty set of <= 3 facts over {a,b} x {p,q} x {a,b} (92 sets)
+fn universe_sets(sy: &Symbols) -> Vec<Vec<Fact>> {
+    let mut uni: Vec<Fact> = Vec::new();
+    for s in ["a", "b"] {
+        for p in ["p", "q"] {
+            for o in ["a", "b"] {
+                uni.push([sy.sym(s), sy.sym(p), sy.sym(o)]);
+            }
+        }
+    }
+    let n = uni.len();
+    let mut out = Vec::new();
+    for i in 0..n {
+        out.push(vec![uni[i]]);
+        for j in (i + 1)..n {
+            out.push(vec![uni[i], uni[j]]);
+            for k in (j + 1)..n {
+                out.push(vec![uni[i], uni[j], uni[k]]);
+            }
+        }
+    }
+    out
+}
+
+/// one input of a program: the ordered entry list, which modes run on it, and (alternative entry
+/// point) the seed ids handed to infer_new_facts_with_sdd_seed_specs for the uncertain entries
+pub struct Input {
+    pub entries: Vec<Entry>,
+    /// only the exact modes (DNF, SDD): used for the additional insertion orders
+    pub exact_only: bool,
+    pub seed_ids: Option<Vec<u32>>,
+}
+impl Input {
+    fn all(entries: Vec<Entry>) -> Input {
+        Input { entries, exact_only: false, seed_ids: None }
+    }
+    fn exact(entries: Vec<Entry>) -> Input {
+        Input { entries, exact_only: true, seed_ids: None }
+    }
+}
+
+/// all assignments of `choices` (indices into the 5 probability choices) to `facts`
+fn assignments(facts: &[Fact], allowed: &[usize], out: &mut Vec<Vec<Entry>>) {
+    let choices: [Option<f64>; 5] = [None, Some(0.0), Some(0.3), Some(0.5), Some(1.0)];
+    let k = facts.len();
+    let mut digits = vec![0usize; k];
+    loop {
+        out.push(facts.iter().zip(digits.iter()).map(|(f, d)| (*f, choices[allowed[*d]])).collect());
+        let mut i = 0;
+        while i < k {
+            digits[i] += 1;
+            if digits[i] < allowed.len() {
+                break;
+            }
+            digits[i] = 0;
+            i += 1;
+        }
+        if i == k {
+            break;
+        }
+    }
 }
 
 fn permutations<TT: Clone>(v: &[TT]) -> Vec<Vec<TT>> {
@@ -174,48 +289,84 @@ fn permutations<TT: Clone>(v: &[TT]) -> Vec<Vec<TT>> {
     out
 }
 
-/// the input lists of one program
-fn inputs(sy: &Symbols, prog: &Prog, thorough: bool) -> Vec<Vec<Entry>> {
-    let mut out: Vec<Vec<Entry>> = Vec::new();
-    let choices: [Option<f64>; 5] = [None, Some(0.0), Some(0.3), Some(0.5), Some(1.0)];
+/// The inputs of one program, in groups that share one expectation (the same entries as a multiset):
+/// sharding is by group, so that the reference runs once per group.
+fn inputs(sy: &Symbols, prog: &Prog, thorough: bool, uni: &[Vec<Fact>]) -> Vec<(&'static str, Vec<Input>)> {
+    let mut out: Vec<(&'static str, Vec<Input>)> = Vec::new();
     let positive = prog.rules.iter().all(|r| r.neg.is_empty());
+    let pair = prog.family == "pair";
+    // a positive program that derives nothing from all the facts derives nothing in any world
+    let derives_nothing = |facts: &[Fact]| -> bool { positive && rd::model_set(&prog.rules, facts, sy, NonNumeric::Zero).map_or(false, |m| m.len() == facts.len()) };
     for set in SMALL_SETS {
         let facts: Vec<Fact> = set.iter().map(|t| rd::parse_fact(t, sy).unwrap()).collect();
-        // a positive program that derives nothing from all the facts derives nothing in any world
-        if positive {
-            if let Ok(m) = rd::model_set(&prog.rules, &facts, sy, NonNumeric::Zero) {
-                if m.len() == facts.len() {
-                    continue;
-                }
-            }
+        if derives_nothing(&facts) {
+            continue;
         }
         let k = facts.len();
         // pairs in the quick tier: every assignment of {0,0.3,0.5,1}; everything else also "certain"
-        let first = if prog.family == "pair" && !thorough { 1 } else { 0 };
-        let mut digits = vec![first; k];
-        loop {
-            out.push(facts.iter().zip(digits.iter()).map(|(f, d)| (*f, choices[*d])).collect());
-            let mut i = 0;
-            while i < k {
-                digits[i] += 1;
-                if digits[i] < 5 {
-                    break;
-                }
-                digits[i] = first;
-                i += 1;
-            }
-            if i == k {
-                break;
-            }
-        }
-        // insertion orders (seed numbering): fixed all-uncertain assignment
+        let allowed: &[usize] = if pair && !thorough { &[1, 2, 3, 4] } else { &[0, 1, 2, 3, 4] };
+        let mut lists = Vec::new();
+        assignments(&facts, allowed, &mut lists);
+        out.extend(lists.into_iter().map(|l| ("curated_set_assignments", vec![Input::all(l)])));
+        // insertion orders (seed numbering / variable order): fixed all-uncertain assignment, EVERY order;
+        // for 4 facts 6 of the 24 orders run in all modes and the other 18 in the exact modes
         let fixed: Vec<Entry> = facts.iter().enumerate().map(|(i, f)| (*f, Some([0.3, 0.5, 0.5, 0.3][i % 4]))).collect();
-        let mut perms = permutations(&fixed);
-        if k == 4 {
-            perms = perms.into_iter().step_by(4).collect();
+        let perms = permutations(&fixed);
+        let mut group: Vec<Input> = Vec::new();
+        for (i, p) in perms.iter().enumerate().skip(1) {
+            if k == 4 && i % 4 != 0 {
+                group.push(Input::exact(p.clone()));
+            } else {
+                group.push(Input::all(p.clone()));
+            }
         }
-        for p in perms.into_iter().skip(1) {
-            out.push(p);
+        // alternative entry point infer_new_facts_with_sdd_seed_specs: Independent seeds with caller-chosen
+        // ids, so the variable order of the diagram (= order of the seed list) differs from the id order
+        // and ids may have gaps
+        if !pair {
+            let orders: Vec<Vec<Entry>> = if k <= 3 { perms.clone() } else { vec![perms[0].clone(), perms[perms.len() - 1].clone()] };
+            let dense: Vec<u32> = (0..k as u32).collect();
+            let gapped: Vec<u32> = [0u32, 2, 5, 9][..k].to_vec();
+            for o in &orders {
+                for ids in permutations(&dense).into_iter().chain(permutations(&gapped)) {
+                    group.push(Input { entries: o.clone(), exact_only: true, seed_ids: Some(ids) });
+                }
+            }
+            out.push(("orders_and_seed_specs", std::mem::take(&mut group)));
+            // the same with the first fact certain
+            if k >= 2 {
+                let mut g2 = Vec::new();
+                let mut withc = fixed.clone();
+                withc[0].1 = None;
+                let dense: Vec<u32> = (0..(k - 1) as u32).collect();
+                let gapped: Vec<u32> = [1u32, 4, 6][..k - 1].to_vec();
+                let orders = if k <= 3 { permutations(&withc) } else { vec![withc.clone()] };
+                for o in &orders {
+                    for ids in permutations(&dense).into_iter().chain(permutations(&gapped)) {
+                        g2.push(Input { entries: o.clone(), exact_only: true, seed_ids: Some(ids) });
+                    }
+                }
+                out.push(("seed_specs_with_certain_fact", g2));
+            }
+        } else if !group.is_empty() {
+            out.push(("orders_and_seed_specs", group));
+        }
+    }
+    // exhaustive small universe: every set of <= 3 facts over {a,b}x{p,q}x{a,b} with every assignment of
+    // {certain,0,0.3,0.5,1} (3 facts in the quick tier: every assignment of {certain,0.5} and (0.3,0.5,0.3))
+    if !pair {
+        for facts in uni {
+            if derives_nothing(facts) {
+                continue;
+            }
+            let allowed: &[usize] = if facts.len() <= 2 || thorough { &[0, 1, 2, 3, 4] } else { &[0, 3] };
+            let mut lists = Vec::new();
+            assignments(facts, allowed, &mut lists);
+            if facts.len() == 3 && !thorough {
+                // one all-uncertain assignment with two different weights (a mix-up of seeds is invisible with equal weights)
+                lists.push(facts.iter().enumerate().map(|(i, f)| (*f, Some([0.3, 0.5, 0.3][i]))).collect());
+            }
+            out.extend(lists.into_iter().map(|l| ("universe_set_assignments", vec![Input::all(l)])));
         }
     }
     for (set, ncertain) in LARGE_SETS {
@@ -224,22 +375,25 @@ fn inputs(sy: &Symbols, prog: &Prog, thorough: bool) -> Vec<Vec<Entry>> {
         if nunc > 8 && !thorough {
             continue;
         }
-        if nunc > 8 && prog.family == "pair" {
+        if nunc > 8 && pair {
             // 2^n worlds x fixpoint per case: the big graphs run on singles and families only
             continue;
         }
-        if positive {
-            if let Ok(m) = rd::model_set(&prog.rules, &facts, sy, NonNumeric::Zero) {
-                if m.len() == facts.len() {
-                    continue;
-                }
-            }
+        if derives_nothing(&facts) {
+            continue;
         }
         let list: Vec<Entry> = facts.iter().enumerate().map(|(i, f)| (*f, if i < nunc { Some(SPREAD[i % 12]) } else { None })).collect();
-        out.push(list.clone());
-        let mut rev = list;
+        let mut group = vec![Input::all(list.clone())];
+        let mut rev = list.clone();
         rev.reverse();
-        out.push(rev);
+        group.push(Input::all(rev));
+        // four more rotations in the exact modes (variable order of the diagram)
+        for j in [1usize, 2, 4, 5] {
+            let mut rot = list.clone();
+            rot.rotate_left(list.len() * j / 6);
+            group.push(Input::exact(rot));
+        }
+        out.push(("large_sets", group));
     }
     out
 }
@@ -278,12 +432,44 @@ fn run_with<P: Provenance>(prov: P, rules: &[Rule], entries: &[Entry], sy: &Symb
     })
 }
 
-pub fn run_mode(mode: Mode, rules: &[Rule], entries: &[Entry], sy: &Symbols, dec: &Decoder) -> Result<BTreeMap<Fact, f64>, String> {
+/// the alternative entry point of the decision-diagram mode: rules and certain facts on the Reasoner,
+/// every uncertain entry as SeedSpec::Independent with the id given for it (in list order)
+fn run_seed_specs(rules: &[Rule], entries: &[Entry], ids: &[u32], sy: &Symbols, dec: &Decoder) -> Result<BTreeMap<Fact, f64>, String> {
+    guarded(|| {
+        let certain: Vec<Entry> = entries.iter().filter(|e| e.1.is_none()).cloned().collect();
+        let mut r = build(rules, &certain, sy);
+        let mut seeds: Vec<SeedSpec> = Vec::new();
+        let mut k = 0;
+        for (f, p) in entries {
+            if let Some(p) = p {
+                let triple = {
+                    let mut d = r.dictionary.write().unwrap();
+                    Triple { subject: d.encode(sy.name(f[0])), predicate: d.encode(sy.name(f[1])), object: d.encode(sy.name(f[2])) }
+                };
+                seeds.push(SeedSpec::Independent { triple, prob: *p, seed_id: ids[k] });
+                k += 1;
+            }
+        }
+        let (_derived, tags) = infer_new_facts_with_sdd_seed_specs(&mut r, seeds);
+        let mut out = BTreeMap::new();
+        for t in r.dataset_index.query(None, None, None) {
+            let p = tags.provenance().recover_probability(&tags.get_tag(&t));
+            out.insert(dec.fact(&r, &t), p);
+        }
+        out
+    })
+}
+
+pub fn run_mode(mode: Mode, rules: &[Rule], entries: &[Entry], seed_ids: Option<&[u32]>, sy: &Symbols, dec: &Decoder) -> Result<BTreeMap<Fact, f64>, String> {
     match mode {
         Mode::Dnf => run_with(DnfWmcProvenance::new(), rules, entries, sy, dec),
         Mode::Sdd => run_with(SddProvenance::new(), rules, entries, sy, dec),
         Mode::MinMax => run_with(MinMaxProbability, rules, entries, sy, dec),
         Mode::Bool => run_with(BooleanProvenance, rules, entries, sy, dec),
+        Mode::SddSeeds => match seed_ids {
+            Some(ids) if ids.len() == entries.iter().filter(|e| e.1.is_some()).count() => run_seed_specs(rules, entries, ids, sy, dec),
+            _ => Err("harness: seed-spec mode without one id per uncertain entry".to_string()),
+        },
     }
 }
 
@@ -294,6 +480,9 @@ pub struct Expect {
     pub exact: BTreeMap<Fact, f64>,
     pub minmax: Option<BTreeMap<Fact, f64>>,
     pub boolean: BTreeSet<Fact>,
+    /// the other reading of "plain derivability" in the Boolean mode: input facts with probability 0
+    /// count as present (the statement does not say which one is meant). Some iff it differs.
+    pub boolean_keeping_p0: Option<BTreeSet<Fact>>,
     pub open: bool,
 }
 
@@ -325,19 +514,30 @@ pub fn expect(rules: &[Rule], entries: &[Entry], sy: &Symbols) -> Result<Expect,
     };
     let present: Vec<Fact> = entries.iter().filter(|e| e.1.map_or(true, |p| p > 0.0)).map(|e| e.0).collect();
     let boolean = rd::model_set(rules, &present, sy, NonNumeric::TypeError)?;
-    Ok(Expect { exact, minmax, boolean, open })
+    let mut boolean_keeping_p0 = None;
+    if present.len() != entries.len() {
+        let all: Vec<Fact> = entries.iter().map(|e| e.0).collect();
+        let alt = rd::model_set(rules, &all, sy, NonNumeric::TypeError)?;
+        // (under the first reading a p=0 fact is in the store with value 0, under the second with value 1)
+        boolean_keeping_p0 = Some(alt);
+    }
+    Ok(Expect { exact, minmax, boolean, boolean_keeping_p0, open })
 }
 
 fn entries_json(entries: &[Entry], sy: &Symbols) -> Value {
     Value::Array(entries.iter().map(|(f, p)| json!([sy.fact_str(f), p])).collect())
 }
 
-pub fn case_json(rules: &[Rule], entries: &[Entry], mode: Mode, sy: &Symbols) -> Value {
-    json!({
+pub fn case_json(rules: &[Rule], entries: &[Entry], seed_ids: Option<&[u32]>, mode: Mode, sy: &Symbols) -> Value {
+    let mut v = json!({
         "rules": rules.iter().map(|r| rd::rule_str(r, sy)).collect::<Vec<_>>(),
         "entries": entries_json(entries, sy),
         "mode": mode.name(),
-    })
+    });
+    if let (Mode::SddSeeds, Some(ids)) = (mode, seed_ids) {
+        v["seed_ids"] = json!(ids);
+    }
+    v
 }
 
 fn fstr(f: &Fact, sy: &Symbols) -> String {
@@ -379,7 +579,7 @@ fn between(reported: &BTreeMap<Fact, f64>, lo: &BTreeMap<Fact, f64>, hi: &BTreeM
 
 fn expected_for(mode: Mode, exp: &Expect) -> Option<BTreeMap<Fact, f64>> {
     match mode {
-        Mode::Dnf | Mode::Sdd => Some(exp.exact.clone()),
+        Mode::Dnf | Mode::Sdd | Mode::SddSeeds => Some(exp.exact.clone()),
         Mode::MinMax => exp.minmax.clone(),
         Mode::Bool => Some(exp.boolean.iter().map(|f| (*f, 1.0)).collect()),
     }
@@ -391,7 +591,7 @@ fn single_pass_expectation(mode: Mode, rules: &[Rule], entries: &[Entry], sy: &S
     let (certain, uncertain) = split(entries);
     let model_of = |facts: &[Fact]| c05::emulate(rules, facts, &[Toggle::SingleNegPass], sy, NonNumeric::TypeError).ok_or_else(|| "no emulation".to_string());
     match mode {
-        Mode::Dnf | Mode::Sdd => rd::worlds_with(&certain, &uncertain, &model_of).ok(),
+        Mode::Dnf | Mode::Sdd | Mode::SddSeeds => rd::worlds_with(&certain, &uncertain, &model_of).ok(),
         Mode::Bool => {
             let present: Vec<Fact> = entries.iter().filter(|e| e.1.map_or(true, |p| p > 0.0)).map(|e| e.0).collect();
             model_of(&present).ok().map(|m| m.into_iter().map(|f| (f, 1.0)).collect())
@@ -400,7 +600,23 @@ fn single_pass_expectation(mode: Mode, rules: &[Rule], entries: &[Entry], sy: &S
     }
 }
 
-fn judge(out: &mut ShardOut, rules: &[Rule], entries: &[Entry], mode: Mode, exp: &Expect, feats: &Features, sy: &Symbols, dec: &Decoder) -> bool {
+/// Boolean mode, second reading of "plain derivability" (probability-0 inputs count as present): does
+/// the observation agree with it exactly?
+fn agrees_with_other_boolean_reading(mode: Mode, obs: &Observation, exp: &Expect, sy: &Symbols) -> bool {
+    if mode != Mode::Bool {
+        return false;
+    }
+    match (&exp.boolean_keeping_p0, obs) {
+        (Some(alt), Ok(_)) => {
+            let alt: BTreeMap<Fact, f64> = alt.iter().map(|f| (*f, 1.0)).collect();
+            problem_of(obs, &alt, sy).is_none()
+        }
+        _ => false,
+    }
+}
+
+#[allow(clippy::too_many_arguments)]
+fn judge(out: &mut ShardOut, rules: &[Rule], entries: &[Entry], seed_ids: Option<&[u32]>, mode: Mode, exp: &Expect, feats: &Features, sy: &Symbols, dec: &Decoder) -> bool {
     let expected = match expected_for(mode, exp) {
         Some(e) => e,
         None => {
@@ -408,20 +624,24 @@ fn judge(out: &mut ShardOut, rules: &[Rule], entries: &[Entry], mode: Mode, exp:
             return true;
         }
     };
-    let obs = run_mode(mode, rules, entries, sy, dec);
+    let obs = run_mode(mode, rules, entries, seed_ids, sy, dec);
     if problem_of(&obs, &expected, sy).is_none() {
+        return true;
+    }
+    if agrees_with_other_boolean_reading(mode, &obs, exp, sy) {
+        out.count("boolean_runs_agreeing_with_the_reading_that_keeps_probability_0_inputs", 1);
         return true;
     }
     // Re-execute. The harness side is a pure function of the case; the subject iterates hash maps
     // with a per-process random state, so its result may legitimately depend on the run. A failing
     // observation is a failure of the property whether or not the next run repeats it; the variation
     // is recorded as a tag (never as part of a known finding's scope).
-    let again = run_mode(mode, rules, entries, sy, dec);
+    let again = run_mode(mode, rules, entries, seed_ids, sy, dec);
     let varies = !same_obs(&obs, &again);
     if varies {
         out.count("failing_runs_whose_result_varies_between_runs", 1);
     }
-    report(out, rules, entries, mode, &obs, &expected, varies, feats, sy);
+    report(out, rules, entries, seed_ids, mode, &obs, &expected, varies, feats, sy);
     false
 }
 
@@ -450,7 +670,7 @@ fn problem_of(o: &Observation, expected: &BTreeMap<Fact, f64>, sy: &Symbols) -> 
 }
 
 #[allow(clippy::too_many_arguments)]
-fn report(out: &mut ShardOut, rules: &[Rule], entries: &[Entry], mode: Mode, obs: &Observation, expected: &BTreeMap<Fact, f64>, varies: bool, feats: &Features, sy: &Symbols) {
+fn report(out: &mut ShardOut, rules: &[Rule], entries: &[Entry], seed_ids: Option<&[u32]>, mode: Mode, obs: &Observation, expected: &BTreeMap<Fact, f64>, varies: bool, feats: &Features, sy: &Symbols) {
     let (symptom, detail) = match problem_of(obs, expected, sy) {
         Some(p) => p,
         None => return,
@@ -471,6 +691,16 @@ fn report(out: &mut ShardOut, rules: &[Rule], entries: &[Entry], mode: Mode, obs
     add(feats.has_varpred_premise, "program_has_variable_predicate_premise");
     add(feats.has_3plus, "program_has_rule_with_3plus_premises");
     add(entries.iter().any(|e| e.1.is_none()), "input_has_certain_facts");
+    add(feats.has_2plus_negated_atoms, "program_has_rule_with_2plus_negated_atoms");
+    add(feats.has_ground_negated_atom, "program_has_ground_negated_atom");
+    add(feats.has_filter_and_negation, "program_has_rule_with_filter_and_negated_atom");
+    add(feats.has_4plus, "program_has_rule_with_4plus_premises");
+    if let Some(ids) = seed_ids {
+        let mut sorted = ids.to_vec();
+        sorted.sort();
+        add(sorted.as_slice() != ids, "seed_ids_not_in_list_order");
+        add(sorted.iter().enumerate().any(|(i, v)| *v != i as u32), "seed_ids_with_gaps");
+    }
     // scope: every reported value lies between what one pass over the negated rules (after the positive
     // fixpoint) gives and the complete value. The pass reads tags while it improves them, in store
     // iteration order, so any value in between can come out; values outside are not explained by it.
@@ -481,7 +711,7 @@ fn report(out: &mut ShardOut, rules: &[Rule], entries: &[Entry], mode: Mode, obs
         }
     }
     tags.push(if explained { "explained_by=single_pass_over_negated_rules_after_positive_fixpoint".into() } else { "explained_by=nothing".to_string() });
-    out.fail(case_json(rules, entries, mode, sy), symptom, detail, tags);
+    out.fail(case_json(rules, entries, seed_ids, mode, sy), symptom, detail, tags);
 }
 
 // ---------------------------------------------------------------------------------------------
@@ -496,39 +726,88 @@ fn run(ctx: &Ctx) -> ShardOut {
         out.count("programs", progs.len() as u64);
         out.count("pairs_excluded_more_than_one_stratum", excluded);
     }
+    let uni = universe_sets(&sy);
     let mut idx: u64 = 0;
     'outer: for (pi, prog) in progs.iter().enumerate() {
         let feats = c05::features(&prog.rules);
-        let lists = inputs(&sy, prog, ctx.thorough());
-        for entries in &lists {
-            idx += 1;
-            if !ctx.mine(idx) {
-                continue;
-            }
+        let groups = inputs(&sy, prog, ctx.thorough(), &uni);
+        for (origin, group) in &groups {
+          // one unit of the walk per group: the inputs of a group share one expectation
+          idx += 1;
+          if !ctx.mine(idx) {
+              continue;
+          }
+          let exp = match expect(&prog.rules, &group[0].entries, &sy) {
+              Ok(e) => e,
+              Err(e) => {
+                  out.machinery_errors.push(format!("reference rejected a generated case: {}", e));
+                  continue;
+              }
+          };
+          for input in group {
+            let entries = &input.entries;
             if ctx.expired() {
                 out.capped.push(format!("wall-clock cap: shard {} stopped at program {} of {}", ctx.shard, pi, progs.len()));
                 break 'outer;
             }
-            let exp = match expect(&prog.rules, entries, &sy) {
-                Ok(e) => e,
-                Err(e) => {
-                    out.machinery_errors.push(format!("reference rejected a generated case: {}", e));
-                    continue;
-                }
-            };
             if exp.open {
                 out.count("cases_not_judged_filter_on_non_numeric_binding", 1);
                 continue;
             }
             out.evaluations += 1;
             out.count(&format!("cases_{}", prog.family), 1);
+            out.count(&format!("inputs_{}", origin), 1);
+            let seed_ids = input.seed_ids.as_deref();
+            let modes: &[Mode] = if seed_ids.is_some() {
+                &[Mode::SddSeeds]
+            } else if input.exact_only {
+                &EXACT_MODES
+            } else {
+                &MODES
+            };
+            if let Some(ids) = seed_ids {
+                out.count("seed_spec_runs", 1);
+                let mut sorted = ids.to_vec();
+                sorted.sort();
+                if sorted.as_slice() != ids {
+                    out.count("seed_spec_runs_ids_not_in_list_order", 1);
+                }
+                if sorted.iter().enumerate().any(|(i, v)| *v != i as u32) {
+                    out.count("seed_spec_runs_ids_with_gaps", 1);
+                }
+            } else if input.exact_only {
+                out.count("inputs_run_in_exact_modes_only", 1);
+            }
+            if exp.boolean_keeping_p0.as_ref().map_or(false, |alt| *alt != exp.boolean) && seed_ids.is_none() && !input.exact_only {
+                out.count("cases_where_the_two_boolean_readings_of_probability_0_differ", 1);
+            }
             let mut ok = true;
-            for m in MODES {
+            for m in modes.iter().copied() {
                 out.count("mode_runs", 1);
-                ok &= judge(&mut out, &prog.rules, entries, m, &exp, &feats, &sy, &dec);
+                ok &= judge(&mut out, &prog.rules, entries, seed_ids, m, &exp, &feats, &sy, &dec);
             }
             if !ok {
                 out.count("cases_with_a_failing_mode", 1);
+            }
+            if feats.has_negation && !feats.neg_conclusion_consumed {
+                out.count("cases_negation_fully_judged_nothing_reads_the_negated_conclusion", 1);
+                let (certain, uncertain) = split(entries);
+                // vacuity of the negation families: does some negated atom actually block (or weaken) a derivation?
+                let pos_only: Vec<Rule> = prog.rules.iter().map(|r| Rule { neg: vec![], ..r.clone() }).collect();
+                if let Ok(w) = rd::worlds(&pos_only, &certain, &uncertain, &sy, NonNumeric::TypeError) {
+                    if !close(&w, &exp.exact) {
+                        out.count("cases_where_a_negated_atom_changes_a_probability", 1);
+                        if feats.has_2plus_negated_atoms {
+                            out.count("cases_where_a_negated_atom_changes_a_probability_rule_with_2plus_negated_atoms", 1);
+                        }
+                        if feats.has_filter_and_negation {
+                            out.count("cases_where_a_negated_atom_changes_a_probability_rule_with_filter", 1);
+                        }
+                        if feats.has_ground_negated_atom {
+                            out.count("cases_where_a_negated_atom_changes_a_probability_ground_negated_atom", 1);
+                        }
+                    }
+                }
             }
             // vacuity
             let inputs_set: BTreeSet<Fact> = entries.iter().map(|e| e.0).collect();
@@ -569,6 +848,7 @@ fn run(ctx: &Ctx) -> ShardOut {
                 out.sample(json!({"rules": prog.rules.iter().map(|r| rd::rule_str(r, &sy)).collect::<Vec<_>>(), "entries": entries_json(entries, &sy),
                     "exact": exp.exact.iter().map(|(f, p)| json!([sy.fact_str(f), p])).collect::<Vec<_>>()}));
             }
+          }
         }
     }
     out
@@ -590,10 +870,16 @@ fn replay(_ctx: &Ctx, case: &Value) -> ShardOut {
             return out;
         }
     };
-    let modes: Vec<Mode> = match case["mode"].as_str().and_then(|n| MODES.iter().copied().find(|m| m.name() == n)) {
+    let seed_ids: Option<Vec<u32>> = case["seed_ids"].as_array().map(|a| a.iter().filter_map(|v| v.as_u64().map(|x| x as u32)).collect());
+    let modes: Vec<Mode> = match case["mode"].as_str().and_then(|n| ALL_MODE_NAMES.iter().copied().find(|m| m.name() == n)) {
         Some(m) => vec![m],
         None => MODES.to_vec(),
     };
+    if modes.contains(&Mode::SddSeeds) && seed_ids.as_ref().map_or(true, |ids| ids.len() != entries.iter().filter(|e| e.1.is_some()).count()) {
+        out.machinery_errors.push("replay case of the seed-spec entry point without one seed id per uncertain entry".to_string());
+        return out;
+    }
+    let seed_ids = seed_ids.as_deref();
     let exp = match expect(&rules, &entries, &sy) {
         Ok(e) => e,
         Err(e) => {
@@ -617,11 +903,16 @@ fn replay(_ctx: &Ctx, case: &Value) -> ShardOut {
         };
         // the subject's result may depend on the store's (random) iteration order: 8 executions; the
         // first failing one is reported
-        let obs: Vec<Observation> = (0..8).map(|_| run_mode(m, &rules, &entries, &sy, &dec)).collect();
+        let ids = if m == Mode::SddSeeds { seed_ids } else { None };
+        let obs: Vec<Observation> = (0..8).map(|_| run_mode(m, &rules, &entries, ids, &sy, &dec)).collect();
         let varies = obs.iter().any(|o| !same_obs(o, &obs[0]));
         for o in &obs {
             if problem_of(o, &expected, &sy).is_some() {
-                report(&mut out, &rules, &entries, m, o, &expected, varies, &feats, &sy);
+                if agrees_with_other_boolean_reading(m, o, &exp, &sy) {
+                    out.count("boolean_runs_agreeing_with_the_reading_that_keeps_probability_0_inputs", 1);
+                    continue;
+                }
+                report(&mut out, &rules, &entries, ids, m, o, &expected, varies, &feats, &sy);
                 break;
             }
         }
